@@ -46,8 +46,8 @@ KINDS = {'d': (['done'], 'none', 1), 'd2': (['done'], 'none', 2), 'ad': (['again
          'dc': (['done'], 'ok', 1), 'adc': (['again', 'done'], 'ok', 1), 'adx': (['again', 'done'], 'raise', 1)}
 
 
-def _ticks(sec):
-    x = sec / TICK
+def _ticks(sec, unit=TICK):
+    x = sec / unit
     return int(round(x)) if abs(x - round(x)) < 1e-9 else -1
 
 
@@ -148,7 +148,7 @@ class SeqWorld:
     def ev(self, **e):
         me = self.s.me()
         e['th'] = ('seq' if '_seq_thread' in me.name else me.name) if me is not None else 'ctl'
-        e['vt'] = _ticks(self.s.now - T0)
+        e['vt'] = _ticks(self.s.now - T0, TICK / 2)      # half ticks
         self.log.append(e)
 
     def stepfunc(self, store, k, kd, rid):
@@ -301,6 +301,108 @@ def _alts(behs):
         out.append([[v for e, v in index[key].items() if e != json.dumps(st['exp'], sort_keys=True)]
                     for st, key in zip(b, ks)])
     return out
+
+
+# ------------------------------------------------------------------ code -> spec: client threads, free schedules
+
+def _seq_scenario(rnd, nkinds=None, maxlen=4):
+    """a seeded client script: thread A (and sometimes C) start sequences, thread B stops and asks for the status"""
+    kinds = sorted(KINDS) if nkinds is None else nkinds
+    def starter(n):
+        ops = []
+        for _ in range(n):
+            ops.append(('sleep', rnd.choice([0, 1, 1, 2, 3, 5, 8])))          # half ticks
+            ops.append(('start', [rnd.choice(kinds) for _ in range(rnd.randint(1, maxlen))]))
+        return ops
+    sc = {'fm': rnd.choice(['ee', 'ew', 'we', 'ww']), 'truthy': rnd.choice([['more', None], [1, 0], [True, False]]),
+          'threads': {'A': starter(rnd.randint(1, 4))}}
+    b = []
+    for _ in range(rnd.randint(1, 6)):
+        b.append(('sleep', rnd.choice([0, 1, 1, 2, 3, 4])))
+        b.append((rnd.choice(['stop', 'status', 'status']),))
+    sc['threads']['B'] = b
+    if rnd.random() < 0.3:
+        sc['threads']['C'] = starter(rnd.randint(1, 2))
+    return sc
+
+
+def _run_seq_scenario(sc, strategy):
+    """execute a client script on the real mixin under the given scheduling strategy; returns the trace"""
+    from .. import detsched as ds
+    s = ds.Scheduler(strategy, max_steps=50000)
+    w = SeqWorld(s, sc['fm'], tuple(sc['truthy']))
+    ready = []
+
+    def client(name, ops):
+        if name == 'A':
+            w.setup()
+            ready.append(1)
+        else:
+            s.block(lambda: bool(ready), None, 'wait.setup')
+        for op in ops:
+            if op[0] == 'sleep':
+                s.sleep(op[1] * TICK / 2)
+            elif op[0] == 'start':
+                # the sequence travels with the call (several starters): the write wrapper holds the access lock
+                w.mod.accessLock.acquire()
+                try:
+                    w.pending = op[1]
+                    w.mod.write_target(0.0)
+                finally:
+                    w.mod.accessLock.release()
+            elif op[0] == 'stop':
+                w.mod.stop()
+                w.ev(ev='stop')
+            elif op[0] == 'status':
+                w.mod.read_status()
+
+    with w.patch():
+        for name, ops in sc['threads'].items():
+            s.spawn(name, client, name, ops)
+        s.run()
+        exc = {n: repr(t.exc) for n, t in s.threads.items() if t.exc is not None}
+        stuck = s.deadlock or s.livelock
+        tr = [{'ev': 'init', 'fm': sc['fm']}] + w.log
+        if not exc and not stuck:
+            obs = w.observe()
+            tr.append({'ev': 'quiet', 'cached': obs['cached'], 'live': {k: obs[k] for k in ('code', 'word', 'k')}})
+    return tr, list(s.choices), exc, stuck
+
+
+def _seq_random(args):
+    from .. import detsched as ds
+    seed, = args
+    rnd = random.Random(seed)
+    sc = _seq_scenario(rnd)
+    tr, choices, exc, stuck = _run_seq_scenario(sc, ds.RandomStrategy(seed + 1, stay=rnd.choice([0.3, 0.6, 0.85])))
+    return sc, tr, [c for _, c in choices], exc, stuck
+
+
+SEQ_SMALL = [     # small scenarios whose schedules are enumerated (bounded preemptions)
+    {'fm': 'ew', 'truthy': ['more', None], 'threads': {'A': [('start', ['ad', 'd']), ('sleep', 9), ('start', ['d'])],
+                                                        'B': [('sleep', 1), ('stop',), ('status',)]}},
+    {'fm': 'we', 'truthy': [1, 0], 'threads': {'A': [('start', ['adc']), ('start', ['r'])],
+                                                'B': [('status',), ('sleep', 2), ('stop',), ('status',)]}},
+    {'fm': 'ee', 'truthy': [True, False], 'threads': {'A': [('start', ['r']), ('sleep', 1), ('start', ['dc', 'adx'])],
+                                                      'B': [('sleep', 3), ('stop',)], 'C': [('start', ['d2'])]}},
+    {'fm': 'ww', 'truthy': ['more', None], 'threads': {'A': [('start', ['d']), ('start', ['ar']), ('start', ['d'])],
+                                                        'B': [('stop',), ('status',), ('stop',)]}},
+]
+
+
+class _Run:
+    def __init__(self, r):
+        self.tr, self.choices, self.exc, self.stuck = r
+
+
+def _seq_explore(args):
+    from .. import detsched as ds
+    idx, nruns, pre = args
+    sc = SEQ_SMALL[idx]
+    out = []
+    for r in ds.explore(lambda st: _Run(_run_seq_scenario(sc, st)), max_preemptions=pre, max_runs=nruns, max_depth=300):
+        out.append((r.tr, [c for _, c in r.choices], r.exc, r.stuck))
+    return idx, out
 
 
 def _seq_sig(bad):
